@@ -322,6 +322,10 @@ def check_load(case):
                 require(back[j] is None, "an unused router entry is read "
                         "back as used", {"index": j})
             else:
+                require(back[j] is not None, "an entry the router holds is "
+                        "read back as unused",
+                        {"index": j, "route_word": hex(e[0]),
+                         "key": hex(e[1]), "mask": hex(e[2])})
                 rte, a, core = back[j]
                 route = set(r for r in range(24) if e[0] >> r & 1)
                 require(set(int(r) for r in rte.route) == route and
